@@ -19,14 +19,15 @@ def run(ctx: Ctx) -> None:
                 "arbitrary trees with up to 7/10 leaves; all 3^k assignments (k<=4/5, sampled beyond); distinct = (tree, assignment); "
                 "non-trivial = tree has an operator")
     ctx.coverage["generated_changed"] = extract.regenerate(["Cfv"])
-    ok = ctx.lean_build(MODULES + ["driver"])
+    ok = ctx.lean_build(MODULES)
+    drv = ctx.lean_build_driver()
     if ok:
         ctx.lean_audit(MODULES)
         if not ctx.quick:
             ctx.lean_check_olean(MODULES)
     exprs = EC.gen_exprs(ctx, ctx.pick(300, 4000), ctx.pick(7, 10), ctx.pick(3, 4))
     cases = EC.rc_cases(ctx, exprs, ctx.pick(81, 243))
-    EC.run_impl_and_model(ctx, cases, ok)
+    EC.run_impl_and_model(ctx, cases, drv)
     for c in cases:
         e, i = c["e"], c["impl"]
         ctx.case((T.to_json(e), sorted(c["rc"].items())), nontrivial=not T.is_leaf(e))
